@@ -44,6 +44,9 @@ where
     let u = unit_roundoff::<T>();
     ndv_core::track::set_u(u);
     let huge = if T::IS_F32 { 1e30 } else { 1e250 };
+    // below this magnitude a non-zero part is in (or near) the subnormal range of the float type,
+    // where relative accuracy is lost: such nodes (and everything downstream) are not judged
+    let tiny = if T::IS_F32 { 1e-30 } else { 1e-280 };
     for pi in 0..nprog {
         if pi % nshards as u64 != shard as u64 {
             continue;
@@ -87,6 +90,10 @@ where
         let mut usable = true;
         for (ni, node) in prog.nodes.iter().enumerate() {
             let (want, mag) = model[ni].slots(&b);
+            if want.iter().any(|w| *w != 0.0 && w.abs() < tiny) {
+                acc.count("nodes_skipped_underflow_range", 1);
+                usable = false;
+            }
             if !model[ni].all_finite() || want.iter().any(|w| w.abs() > huge) {
                 acc.count("nodes_skipped_overflow_range", 1);
                 usable = false;
